@@ -21,7 +21,7 @@ import time
 VERIF = os.path.dirname(os.path.abspath(__file__))
 sys.path.insert(0, VERIF)
 SEEDED = os.path.join(VERIF, "seeded")
-REPO = "/repo"
+REPO = os.environ.get("VERIF_REPO", "/repo")
 
 
 def sh(cmd, cwd=None, timeout=1800):
